@@ -69,6 +69,8 @@ def select(name, kind="int"):
     def body(x, a, si):
         uri, d, warns = pick(sp, si)
         schema = disagreement(name, a)
+        if name == "id_ref":
+            del schema["$id" if d in (3, 4) else "id"]
         if uri is not None:
             schema["$schema"] = uri
         with warnings.catch_warnings(record=True) as w:
@@ -160,6 +162,8 @@ def cli_selects(name):
         uri, d, _ = pick(sp, si)
         xt = pick(INSTANCES, xi)
         schema = disagreement(name, 5)
+        if name == "id_ref":
+            del schema["$id" if d in (3, 4) else "id"]      # only the selected draft's own id keyword
         if uri is not None:
             schema["$schema"] = uri
         text = json.dumps(schema)
